@@ -350,6 +350,14 @@ def random_inputs(rng, scn: Scenario, pool=None) -> Inputs:
         if rng.random() < 0.7:
             bal[a] = rng.choice([0, 1, 5, 100, 10**18, (1 << 120) - 1, rng.randrange(1 << 64)])
     value = rng.choice([0, 0, 0, 1, 5, rng.randrange(1 << 64)])
+    if rng.random() < 0.12:
+        # boundary of the documented balance assumption (balance <= 2^128 inclusive): one account holds exactly
+        # MAX_ETH (or one less), everything else is empty, so the total supply stays within the assumption
+        rich = rng.choice(sorted(set(addrs + [caller])))
+        bal = {a: 0 for a in set(addrs + [caller])}
+        bal[rich] = rng.choice([1 << 128, (1 << 128) - 1])
+        value = rng.choice([0, 0, 1, value]) if rich == caller else 0
+        return Inputs([word() for _ in range(scn.nargs)], caller, origin, value, bal, 0)
     return Inputs([word() for _ in range(scn.nargs)], caller, origin, value, bal, rng.choice([0, 0, 7]))
 
 
